@@ -97,6 +97,8 @@ def replay_lengths_angles(data):
     else:
         uc = UnitCell.from_lengths_and_angles(lengths, ang)
     bad = oracle(uc, lengths, cos)
+    if how == "vectors" and not np.allclose(np.asarray(uc.inverse, float), np.asarray(uc0.inverse, float), atol=1e-9 * max(1.0, np.abs(uc.inverse).max())):
+        bad.append("inverse matrices of the two construction routes differ")
     return bool(bad), bad
 
 
